@@ -77,6 +77,9 @@ type Opts struct {
 	Max         int    `json:"max"`         // MaxSignatureAttempts
 	ContentType string `json:"contentType"` // ok | empty | invalid (notation.VerifyBlob)
 	Logging     bool   `json:"logging"`
+	// Desc "other": the artifact presented is not the one the signature was made for (same media
+	// type and size, another digest / other blob bytes)
+	Desc string `json:"desc,omitempty"`
 }
 
 func defaultOpts(media string) Opts {
@@ -366,11 +369,24 @@ func invoke(r *runner, c *Case) callResult {
 			}
 		}
 	}
+	art, blob := f.art, f.blob
+	if c.Opts.Desc == "other" {
+		art.Digest = digest.FromString("c12: another artifact")
+		blob = append([]byte("X"), f.blob[1:]...)
+		inner := gen
+		gen = func(alg digest.Algorithm) (ocispec.Descriptor, error) {
+			d, err := inner(alg)
+			if err == nil {
+				d.Digest = alg.FromBytes(blob)
+			}
+			return d, err
+		}
+	}
 	res.called = true
 	panicked := r.call(c.Entry, len(c.Input), func() {
 		switch c.Entry {
 		case "verifier.Verify":
-			res.outcome, res.err = v.Verify(ctx, f.art, c.Input, notation.VerifierVerifyOptions{ArtifactReference: ref, SignatureMediaType: c.Opts.Media, PluginConfig: pcfg, UserMetadata: meta})
+			res.outcome, res.err = v.Verify(ctx, art, c.Input, notation.VerifierVerifyOptions{ArtifactReference: ref, SignatureMediaType: c.Opts.Media, PluginConfig: pcfg, UserMetadata: meta})
 			touch(res.outcome)
 		case "verifier.VerifyBlob":
 			res.outcome, res.err = v.VerifyBlob(ctx, gen, c.Input, notation.BlobVerifierVerifyOptions{SignatureMediaType: c.Opts.Media, PluginConfig: pcfg, UserMetadata: meta, TrustPolicyName: policyName})
@@ -378,12 +394,12 @@ func invoke(r *runner, c *Case) callResult {
 		case "SkipVerify":
 			res.skip, res.level, res.err = v.SkipVerify(ctx, notation.VerifierVerifyOptions{ArtifactReference: ref, SignatureMediaType: c.Opts.Media, PluginConfig: pcfg, UserMetadata: meta})
 		case "notation.Verify":
-			_, res.outcomes, res.err = notation.Verify(ctx, v, &oneSigRepo{desc: f.art, env: c.Input, mt: c.Opts.Media}, notation.VerifyOptions{ArtifactReference: ref, PluginConfig: pcfg, MaxSignatureAttempts: c.Opts.Max, UserMetadata: meta})
+			_, res.outcomes, res.err = notation.Verify(ctx, v, &oneSigRepo{desc: art, env: c.Input, mt: c.Opts.Media}, notation.VerifyOptions{ArtifactReference: ref, PluginConfig: pcfg, MaxSignatureAttempts: c.Opts.Max, UserMetadata: meta})
 			for _, o := range res.outcomes {
 				touch(o)
 			}
 		case "notation.VerifyBlob":
-			_, res.outcome, res.err = notation.VerifyBlob(ctx, v, bytes.NewReader(f.blob), c.Input, notation.VerifyBlobOptions{ContentMediaType: contentType,
+			_, res.outcome, res.err = notation.VerifyBlob(ctx, v, bytes.NewReader(blob), c.Input, notation.VerifyBlobOptions{ContentMediaType: contentType,
 				BlobVerifierVerifyOptions: notation.BlobVerifierVerifyOptions{SignatureMediaType: c.Opts.Media, PluginConfig: pcfg, UserMetadata: meta, TrustPolicyName: policyName}})
 			touch(res.outcome)
 		default:
